@@ -96,13 +96,15 @@ Print Assumptions C10_unresolved_target_rejected_partial.
 (** For SELECT <stars and column references> FROM <base tables, aliased or not>
     sqlc accepts exactly the statements the reference semantics (every column
     reference must resolve to one column; every relation must exist) accepts. *)
-Theorem C10_simple_select_decision_partial : forall (e : env) (stmt : node) (targets rvs : list node),
+Theorem C10_simple_select_decision_partial : forall (e : env) (strict : bool) (stmt : node) (targets rvs : list node),
   kind_of stmt = "SelectStmt" -> kid "WithClause" stmt = Nil ->
   kid "TargetList" stmt = NList targets -> targets <> [] ->
   kid "FromClause" stmt = NList rvs -> from_items (kid "FromClause" stmt) = rvs ->
   Forall (fun rv => kind_of rv = "RangeVar") rvs ->
-  level_refs (NList [kid "FromClause" stmt; kid "WhereClause" stmt; kid "GroupClause" stmt;
-                     kid "HavingClause" stmt; kid "SortClause" stmt]) = [] ->
+  (if strict then level_refs (NList [kid "FromClause" stmt; kid "WhereClause" stmt; kid "GroupClause" stmt;
+                                     kid "HavingClause" stmt; kid "SortClause" stmt])
+   else paired_refs (NList [kid "FromClause" stmt; kid "WhereClause" stmt; kid "GroupClause" stmt;
+                            kid "HavingClause" stmt; kid "SortClause" stmt])) = [] ->
   level_subselects (NList ([kid "FromClause" stmt; kid "WhereClause" stmt; kid "GroupClause" stmt;
                             kid "HavingClause" stmt; kid "SortClause" stmt] ++ map (kid "Val") targets ++ [])) = [] ->
   level_refs (NList (map (kid "Val") targets)) = map (kid "Val") targets ->
@@ -110,7 +112,7 @@ Theorem C10_simple_select_decision_partial : forall (e : env) (stmt : node) (tar
   (forall sc, spec_scope (env_cat e) rvs = POk sc ->
      Forall (fun it => NoDup (map sc_name (si_cols it))) sc /\ Forall (simple_target sc) targets) ->
   forall f g,
-  (exists row, describe (env_cat e) true true (S (S f)) [] [] stmt = POk row)
+  (exists row, describe (env_cat e) strict true (S (S f)) [] [] stmt = POk row)
   <-> (exists cols, output_columns (S g) e [] stmt = Ok cols).
 Proof. exact simple_select_decision. Qed.
 Print Assumptions C10_simple_select_decision_partial.
